@@ -45,7 +45,8 @@ def required(tier):
                     'naming:pattern:zero-padded',
                     'layout:associated-parts-cut-at-other-boundaries',
                     'layout:inputs-are-symbolic-links-to-equally-named-files',
-                    'open:relative-path-then-chdir'],
+                    'open:relative-path-then-chdir', 'layout:merged-store-moved-after-merge',
+                    'name-clash:through-the-pattern-route'],
         'counters': {'seam_reads': 50, 'beyond_end_reads': 10, 'id_lookups': 50},
         'evaluations': 300,
     }
@@ -185,6 +186,17 @@ def one_merge(rng, workdir: Path, rec, k):
             kw['associated_files'] = [aout]
     except Exception as e:  # noqa: BLE001
         raise Mismatch('valid merge raised', {'error': f'{type(e).__name__}: {e}', **case})
+    # the merged directory is renamed / moved after merge() and opened at its new place
+    if rng.random() < 0.25:
+        (d / 'archive').mkdir(exist_ok=True)
+        new_out = d / 'archive' / f'renamed_{rng.getrandbits(20):x}.aeic-store'
+        os.rename(out, new_out)
+        out = new_out
+        if with_assoc and rng.random() < 0.5:
+            new_a = d / 'archive' / 'renamed_x.aeic-store'
+            os.rename(kw['associated_files'][0], new_a)
+            kw['associated_files'] = [new_a]
+        rec.cls('layout:merged-store-moved-after-merge')
     small = rng.random() < 0.4
     # the merged store opened through a path relative to the working directory, which the
     # program changes afterwards (before any look-up)
@@ -192,7 +204,7 @@ def one_merge(rng, workdir: Path, rec, k):
     cwd0 = os.getcwd()
     try:
         if rel_open:
-            os.chdir(d)
+            os.chdir(out.parent)
             rec.cls('open:relative-path-then-chdir')
         st = TrajectoryStore.open(base_file=Path(out.name) if rel_open else out,
                                    cache_size_mb=1.5 * max_nb / (1024 * 1024) if small else 64, **kw)
@@ -340,6 +352,8 @@ def name_clashes(rng, workdir: Path, rec, k):
         with_ids = rng.random() < 0.5
         nin = rng.randint(2, 4)
         clash = sorted(rng.sample(range(nin), 2)) if kind.startswith('same') else [rng.randrange(nin)]
+        if kind.startswith('same') and rng.random() < 0.5:
+            clash = list(range(nin))          # run{index}/shard.nc: every input has that name
         paths, model = [], []
         uid = k * 10000 + 7000
         for j in range(nin):
@@ -360,8 +374,15 @@ def name_clashes(rng, workdir: Path, rec, k):
         out = d / 'out.aeic-store'
         case = {'kind': kind, 'inputs': [str(p.relative_to(d)) for p in paths], 'ids': with_ids}
         rec.ev()
+        # the same inputs named through the numbered-pattern route when their names allow it
+        via_pattern = kind.startswith('same') and len(clash) == nin
         try:
-            TrajectoryStore.merge(out, input_stores=paths)
+            if via_pattern:
+                rec.cls('name-clash:through-the-pattern-route')
+                TrajectoryStore.merge(out, input_stores_pattern=str(d / 'in{index}' / 'shard.nc'),
+                                      input_stores_index_range=(0, nin - 1))
+            else:
+                TrajectoryStore.merge(out, input_stores=paths)
             refused = None
         except Exception as e:  # noqa: BLE001
             refused = e
